@@ -111,6 +111,21 @@ func (m *moduleChecker) checkDxMetadata() {
 			m.find("dxmeta.named", "!dx.valver = %v, want {major, minor}", v)
 		}
 	}
+	// llvm.ident entries: one-operand nodes holding a string (LLVM verifier)
+	if n := m.namedMD("llvm.ident"); n != nil {
+		for _, id := range n.ops {
+			m.fire("dxmeta.named")
+			ops, ok := m.node(id)
+			if !ok {
+				continue
+			}
+			if len(ops) != 1 {
+				m.find("dxmeta.named", "!llvm.ident entry has %d operands, want 1", len(ops))
+			} else if _, isStr := m.opString(ops[0]); !isStr {
+				m.find("dxmeta.named", "!llvm.ident entry operand is not a string")
+			}
+		}
+	}
 	// dx.shaderModel
 	m.fire("dxmeta.shader-model")
 	if n := m.namedMD("dx.shaderModel"); n == nil {
@@ -183,7 +198,7 @@ func (m *moduleChecker) checkDxMetadata() {
 			}
 		}
 	}
-	if psvName := rep.PSV.EntryName; rep.PSV.Present && rep.PSV.Version >= 3 && okName {
+	if psvName := rep.PSV.EntryName; rep.PSV.Complete && rep.PSV.Version >= 3 && okName {
 		m.fire("dxmeta.entry")
 		if psvName != name {
 			m.find("dxmeta.entry", "PSV0 EntryFunctionName %q differs from the entry point name %q", psvName, name)
@@ -217,7 +232,7 @@ func (m *moduleChecker) checkDxSignatures(op uint64) {
 			}
 		}
 	}
-	if !rep.PSV.Present || rep.PSV.Version < 1 {
+	if !rep.PSV.Complete || rep.PSV.Version < 1 {
 		return
 	}
 	names := [3]string{"input", "output", "patch-constant/primitive"}
@@ -333,7 +348,7 @@ func (m *moduleChecker) checkDxResources(op uint64) {
 			}
 		}
 	}
-	if !rep.PSV.Present {
+	if !rep.PSV.Complete {
 		return
 	}
 	// agreement with PSV0
@@ -428,7 +443,7 @@ func (m *moduleChecker) checkDxProperties(op uint64) {
 		if nt[0] == 0 || nt[1] == 0 || nt[2] == 0 || nt[0] > 1024 || nt[1] > 1024 || nt[2] > 64 || uint64(nt[0])*uint64(nt[1])*uint64(nt[2]) > 1024 {
 			m.find("dxmeta.numthreads", "numthreads %v outside the D3D limits (x,y<=1024, z<=64, product<=1024)", *nt)
 		}
-		if rep.PSV.Present && rep.PSV.HasNumThreads && rep.PSV.NumThreads != *nt {
+		if rep.PSV.Complete && rep.PSV.HasNumThreads && rep.PSV.NumThreads != *nt {
 			m.find("dxmeta.numthreads", "metadata numthreads %v but PSV0 numthreads %v", *nt, rep.PSV.NumThreads)
 		}
 		if c.e.NumThreads != nil && *c.e.NumThreads != *nt {
